@@ -588,3 +588,30 @@ End Link.
 Arguments LSend {A}. Arguments LTx {A}. Arguments lrun {A}. Arguments ldrain {A}. Arguments l_init {A}.
 Arguments commanded {A}. Arguments cells {A}. Arguments lstep {A}. Arguments mkL {A}.
 Arguments l_store {A}. Arguments l_queue {A}. Arguments l_air {A}. Arguments l_upd {A}.
+
+(* ================================================================== packet type and the session's firmware (round 7) *)
+(* The hover setpoint has two encodings: legacy type 5 with the yaw rate negated (firmware up to protocol version 8) and
+   type 10 (since version 9).  The commander chooses by the protocol version it reads from the platform service AT SEND TIME;
+   the version can change between sessions on the same Crazyflie object. *)
+Definition hover_type (ver : Z) : Z := if (ver <=? 8)%Z then 5%Z else 10%Z.
+Definition hover_yaw_field (ver yaw : Z) : Z := if (ver <=? 8)%Z then (- yaw)%Z else yaw.
+
+(* firmware side (cf. C08/FwLayout.v): type 5 is known to every version and its decoder negates the yaw field; type 10 is
+   known from version 9 *)
+Definition fw_knows (ver t : Z) : bool := (t =? 5)%Z || ((t =? 10)%Z && (9 <=? ver)%Z).
+Definition fw_yaw (t field : Z) : Z := if (t =? 5)%Z then (- field)%Z else field.
+
+(* a history = the version in force at each send with the commanded yaw rate; stateless sender vs a sender that caches the
+   choice made at the first send *)
+Definition send_now (h : list (Z * Z)) : list (Z * Z) :=
+  map (fun vy => (hover_type (fst vy), hover_yaw_field (fst vy) (snd vy))) h.
+
+Definition send_cached (h : list (Z * Z)) : list (Z * Z) :=
+  match h with
+  | [] => []
+  | (v0, _) :: _ => map (fun vy => (hover_type v0, hover_yaw_field v0 (snd vy))) h
+  end.
+
+(* what the firmware of each session makes of the packets: None = dropped *)
+Definition fw_receive (h : list (Z * Z)) (pk : list (Z * Z)) : list (option Z) :=
+  map (fun x => let '((ver, _), (t, f)) := x in if fw_knows ver t then Some (fw_yaw t f) else None) (combine h pk).
